@@ -212,8 +212,9 @@ def deduction_obligations(ck, rule_prefix=''):
             table_of[node.targets[0].id] = node.value
     loops = []
     for n in fn.body:
-        if isinstance(n, ast.For) and isinstance(n.iter, ast.Call) and call_attr(n.iter) == 'items':
-            recv = n.iter.func.value
+        if isinstance(n, ast.For):
+            # `for type, count in table.items()` or `for type in table` (the count is then read as table[type])
+            recv = n.iter.func.value if isinstance(n.iter, ast.Call) and call_attr(n.iter) == 'items' and isinstance(n.iter.func, ast.Attribute) else n.iter
             sub = table_of.get(u(recv)) if isinstance(recv, ast.Name) else (recv if isinstance(recv, ast.Subscript) and u(recv.value) == counter + '.counts' else None)
             if sub is not None:
                 loops.append((n, sub))
@@ -222,10 +223,16 @@ def deduction_obligations(ck, rule_prefix=''):
           'deductions iterate the per-type table of exactly the `{}` level (found {})'.format(level, u(loops[0][1])), key='PROV-level|table')
     loops = [loops[0][0]]
     loop = loops[0]
-    ck.need(isinstance(loop.target, ast.Tuple) and len(loop.target.elts) == 2, 'loop target is not (type, count)')
-    key_var, cnt_var = [u(e) for e in loop.target.elts]
-    table_txt = u(loop.iter.func.value)
-    count_exprs = {cnt_var, '{}[{}]'.format(table_txt, key_var)}
+    with_items = isinstance(loop.iter, ast.Call)
+    ck.need((isinstance(loop.target, ast.Tuple) and len(loop.target.elts) == 2) if with_items else isinstance(loop.target, ast.Name), 'loop target is not (type, count) / type')
+    if with_items:
+        key_var, cnt_var = [u(e) for e in loop.target.elts]
+        table_txt = u(loop.iter.func.value)
+        count_exprs = {cnt_var, '{}[{}]'.format(table_txt, key_var)}
+    else:
+        key_var, cnt_var = u(loop.target), None
+        table_txt = u(loop.iter)
+        count_exprs = {'{}[{}]'.format(table_txt, key_var)}
     # names bound to the count inside the loop
     for st in loop.body:
         if isinstance(st, ast.Assign) and isinstance(st.targets[0], ast.Name) and u(st.value) in count_exprs:
